@@ -1,4 +1,5 @@
 // C12 — SLIP (RFC 1055) framing: transparency, bounds, resynchronisation, error propagation.
+#include "shims/pp_probes.h"
 #include "support/endpoints.hpp"
 #include <ufw/rfc1055.h>
 
@@ -270,6 +271,7 @@ static bool garbage_nontrivial(const Bytes &g) {
 
 static void run() {
     auto &a = vp::args();
+    if (a.shard == 0) vp::pp_phase(vp_pp_rfc1055, "rfc1055");
     vp::CaseScope scope([] { return ser(g_cur); });
     size_t maxlen = a.thorough() ? 10 : 8;
 #ifdef VP_LIGHT
@@ -343,6 +345,7 @@ static void run() {
     }
 }
 static bool replay(const std::string &text) {
+    if (text.rfind("pp ", 0) == 0) { vp::pp_phase(vp_pp_rfc1055, "rfc1055"); return vp::stats().failures.empty(); }
     auto w = vp::split(vp::lines(text).at(0));
     if (w.size() != 6 || w[0] != "slip") return false;
     Case c{w[1][0], atoi(w[2].c_str()) != 0, atoi(w[3].c_str()), w[5] == "-" ? Bytes() : vp::unhex(w[5]), atoi(w[4].c_str())};
